@@ -10,9 +10,9 @@ def build(ctx):
     ctx.log("translate", out)
     if not ok:
         ctx.diag.append("translator failed: " + out[-300:])
-    C.prove(ctx, ["Props/C07.v", "Props/C07File.v"],
+    C.prove(ctx, ["Props/C07.v", "Props/C07File.v", "Props/C07Full.v"],
             ["Oblig/C07Obl.v", "Model/JsonCodecFacts.v", "Oblig/C07FileObl.v", "Model/JsonSurvive.v", "Model/JsonFileFacts.v",
-             "Model/JsonPostTable.v"])
+             "Model/JsonPostTable.v", "Model/JsonDefaultsTable.v", "Model/JsonFullFacts.v", "Model/JsonKeepFacts.v", "Oblig/C07FullObl.v"])
     ok, out = C.build_harness()
     ctx.log("go build", out)
     if not ok:
@@ -26,7 +26,56 @@ def build(ctx):
     ctx.log("ocaml c07file", out[-3000:])
     if not ok:
         ctx.diag.append("extracted post-processing model does not build: " + out[-600:])
+    ok, out = C.build_ocaml("c07full")
+    ctx.log("ocaml c07full", out[-3000:])
+    if not ok:
+        ctx.diag.append("extracted full file-level model does not build: " + out[-600:])
     return True
+
+
+def achcli_bin(ctx):
+    binp = os.path.join(C.BIN, "achcli_c07")
+    rc, out = C.sh(["go", "build", "-o", binp, "./cmd/achcli"], cwd=C.REPO, timeout=900)
+    ctx.log("achcli build", out[-1000:])
+    if rc != 0:
+        ctx.diag.append("achcli does not build: " + out[-300:])
+        return None
+    return binp
+
+
+def full_corr(ctx, n, ncli):
+    """Phase 4: option-aware writer on full trees (ADV, bypass options), the prediction of C07_roundtrip, from_json under
+    the option values achcli passes, the achcli binary's option precedence, constructor values."""
+    d = os.path.join(ctx.rundir, "full")
+    os.makedirs(d, exist_ok=True)
+    drv = os.path.join(C.BUILD, "ocaml", "c07full", "driver")
+    if not os.path.exists(drv):
+        ctx.diag.append("full file-level correspondence could not run: no driver")
+        return
+    cmd = [os.path.join(C.BIN, "c07"), "full", "-out", d, "-n", str(n), "-ncli", str(ncli)]
+    binp = achcli_bin(ctx)
+    if binp:
+        cmd += ["-achcli", binp]
+    rc, out = C.sh(cmd, timeout=3000)
+    ctx.log("full", out[-1500:])
+    if rc != 0:
+        ctx.diag.append("full file-level correspondence could not run: " + out[-300:])
+        return
+    rc2, out2 = C.sh("%s %s %s > %s" % (drv, os.path.join(d, "cases.txt"), os.path.join(d, "hyps.json"), os.path.join(d, "model.txt")), timeout=3000)
+    if rc2 != 0:
+        ctx.diag.append("extracted full file-level model crashed: " + out2[-300:])
+    ctx.compare("file-level round trip (options, header options, offsets, ADV, achcli, constructors)",
+                os.path.join(d, "model.txt"), os.path.join(d, "impl.txt"), os.path.join(d, "cases.txt"))
+    try:
+        import json
+        hy = json.load(open(os.path.join(d, "hyps.json")))
+        rc3, latent = C.sh("echo L > %s && %s %s" % (os.path.join(d, "latent.txt"), drv, os.path.join(d, "latent.txt")), timeout=60)
+        ctx.cov["full_roundtrip"] = {"generator": json.load(open(os.path.join(d, "stats.json"))), "roundtrip_theorem": hy,
+                                     "latent_constructor_defaults": latent.split()}
+        if hy.get("roundtrip_hypotheses_hold", 0) == 0 or hy.get("adv_files_hypotheses_hold", 0) == 0:
+            ctx.diag.append("no generated file (or no ADV file) satisfies the hypotheses of C07_roundtrip (vacuous)")
+    except (OSError, ValueError) as ex:
+        ctx.diag.append("full file-level statistics missing: %s" % ex)
 
 
 def post_corr(ctx, n):
@@ -107,11 +156,13 @@ def search(ctx, factor):
 
 def run(ctx):
     ctx.search = search
-    ctx.trusted += ["jsonpost analysis of the translator (switches of ConvertBatchType/NewBatch, type-code literals, call order in setBatchesFromJSON and FileFromJSONWith, datetimeformats, overwriteDateTimeFields; syntactic)",
+    ctx.trusted += ["jsondefaults analysis of the translator (New... constructor literals incl. the new(T)/var shape, File.SetValidation / FileHeader.SetValidation statements, the header wrapper literal of FileFromJSONWith, option reads of the FileHeader accessors, File.Create's header check, assignments to unexported FileHeader fields, exits of achcli's readValidationOpts and the call chain to FileFromJSONWith; syntactic)",
+                    "jsonpost analysis of the translator (switches of ConvertBatchType/NewBatch, type-code literals, call order in setBatchesFromJSON and FileFromJSONWith, datetimeformats, overwriteDateTimeFields; syntactic)",
                     "jsontags analysis of the translator (struct tags, aux structs of the JSON methods, decode wrappers of file.go, constructor literals; syntactic)",
                     "encoding/json: text <-> tree, case-insensitive key matching, omitempty, decoding into existing values (modelled by enc/dec, validated by the correspondence run)"]
     ctx.assumptions += ["strings are valid UTF-8 (json.Marshal replaces invalid bytes); JSON objects carry no duplicate keys",
-                        "PARTIAL: C07_roundtrip_partial (write (from_json (to_json v)) = write v) is proved for file values whose tree is 'ready' (not ADV, addenda type codes present, CTX/ATX counts set, build under the file's options is the identity on every batch, timestamps shorter than 19 bytes, batch numbers and file control as Create computes them) and whose kept excused fields hold their decode-time values; FileHeader.Validate / BatchHeader.Validate / File.Validate are abstract predicates; ADV files, the reader (text -> file) and option-dependent renderings of the file header are covered by correspondence and oracle only",
+                        "C07_roundtrip (Props/C07Full.v): write, file options, header options and offsets survive FileFromJSON(Marshal(v)) for every typed File value (ADV included) that is in the domain (options stored through File.SetValidation, priorityCode the package's literal, timestamps in NACHA form), valid (regenerated FileHeader rules, batch headers present, addenda type codes, Create's preconditions), tabulated (build / Create / createFileADV are the identity) and json-safe (no Addenda98.iatCorrectedData; the CTX/ATX name heuristic does not fire) -- json-safe is exactly the known findings, each with a _refuted witness; the kept excused fields (header constants, FileIDModifier) are derived from validity (C07_keep_from_valid)",
+                        "PARTIAL (phase 2 statement, kept): C07_roundtrip_partial (write (from_json (to_json v)) = write v) is proved for file values whose tree is 'ready' (not ADV, addenda type codes present, CTX/ATX counts set, build under the file's options is the identity on every batch, timestamps shorter than 19 bytes, batch numbers and file control as Create computes them) and whose kept excused fields hold their decode-time values; FileHeader.Validate / BatchHeader.Validate / File.Validate are abstract predicates; ADV files, the reader (text -> file) and option-dependent renderings of the file header are covered by correspondence and oracle only",
                         "post-processing model: nil elements of JSON arrays, the key advFileControl in a hand-written document, Unicode case folding of the OFFSET name are not modelled",
                         "the excused fields of Oblig/C07Obl.v (unexported option pointers, ids, categories, Batch.ADVControl, File.ADVControl, NotificationOfChange/ReturnEntries, FileHeader constants) are restored or recomputed by the decoder's post-processing or are not rendered (docs/C07.md)"]
     if not build(ctx):
@@ -130,13 +181,14 @@ def run(ctx):
     else:
         ctx.diag.append("correspondence could not run: " + out[-300:])
     post_corr(ctx, ctx.scale(250, 4000))
+    full_corr(ctx, ctx.scale(540, 6000), ctx.scale(36, 240))
     summ = oracle(ctx, ctx.scale(1500, 20000))
     ctx.add_summary(summ, "JSON round trip oracle")
     optsdom.run(ctx, "C07")
     s2 = cli(ctx, ctx.scale(30, 240))
     ctx.add_summary(s2, "achcli -reformat")
     if ctx.tier == "thorough":
-        ctx.cov["forbidden_vernacular"] = [x for x in C.forbidden_vernacular() if "JsonCodec" in x or "C07" in x or "JsonTags" in x or "JsonFile" in x or "JsonSurvive" in x or "JsonPost" in x]
+        ctx.cov["forbidden_vernacular"] = [x for x in C.forbidden_vernacular() if "JsonCodec" in x or "C07" in x or "JsonTags" in x or "JsonFile" in x or "JsonSurvive" in x or "JsonPost" in x or "JsonFull" in x or "JsonDefaults" in x or "JsonKeep" in x]
 
 
 def replay(path):
